@@ -4,7 +4,7 @@ import random
 ID = "C18"
 LEVEL = "exploration"
 RULE = ("cases: (A-activity list, B, activity amounts): O_B = solutions / parse results of spec B in a fresh process; O'_B = the same after other spec objects "
-        "A were created, fuzzed (long enough to trigger the adaptive tuner), parsed in the same process (B sets random_seed itself); protocol-mode pairs (A and B both run in IO mode against party classes of their own, with equal or different party names; compared: B's message sequence). Event logs are compared "
+        "A were created, fuzzed (long enough to trigger the adaptive tuner), parsed in the same process (B sets random_seed itself); pairs loading the same spec text with different options (lazy); protocol-mode pairs (A and B both run in IO mode against party classes of their own, with equal or different party names; compared: B's message sequence). Event logs are compared "
         "byte for byte; the global-limit trace (nodes.MAX_REPETITIONS at B's start/end) is recorded. On divergence a counterfactual attribution re-runs the "
         "pair with the suspected global reset to its import-time value before B; if the divergence disappears it is attributed to that mechanism, "
         "otherwise it is a fresh violation. Non-trivial: A performed >= 1 generation or parse before B; distinct by (A, B, activity).")
@@ -48,6 +48,20 @@ def cases(tier, seed):
     rng = random.Random(18000 + seed)
     n = 96 if tier == "quick" else 900
     out = []
+    # the SAME spec text loaded twice with different options: B must behave as configured, not as the earlier object was
+    LAZY_SPECS = [
+        "<start> ::= <a> ',' <b>\n<a> ::= <d>{3}\n<b> ::= <d>{3}\n<d> ::= '0'|'1'|'2'|'3'|'4'|'5'|'6'|'7'|'8'|'9'\nwhere int(<a>) == 2 * int(<b>) + 1 or int(<a>) + int(<b>) == 777\n",
+        "<start> ::= <w>+\n<w> ::= 'x' | 'yy' | <d>\n<d> ::= '1'|'2'|'3'\nwhere forall <v> in <w>: str(<v>) != 'x' and len(str(<start>)) > 6\n",
+        "<start> ::= <k> '=' <v>\n<k> ::= r'[a-c]{2}'\n<v> ::= <d>+\n<d> ::= '0'|'5'|'7'\nwhere int(<v>) % 7 == 0 and len(str(<v>)) > 2 and str(<k>) != 'aa'\n",
+    ]
+    for i in range(10 if tier == "quick" else 90):
+        spec = LAZY_SPECS[i % len(LAZY_SPECS)]
+        b_lazy = i % 2 == 0
+        st = {"population_size": rng.choice([8, 16]), "max_generations": rng.choice([6, 12]), "desired_solutions": rng.choice([5, 15])}
+        pre = [{"spec": spec, "name": "same-text-other-options", "lazy": not b_lazy, "settings": dict(st), "random_seed": rng.randrange(1000),
+                "fuzz": rng.random() < 0.5, "parse_inputs": []}]
+        bcfg = {"spec": spec, "lazy": b_lazy, "settings": st, "random_seed": rng.randrange(1000), "parse_inputs": [], "fuzz": True}
+        out.append({"key": f"same-text-lazy{int(not b_lazy)}->lazy{int(b_lazy)}-{i}", "pre": pre, "b": bcfg, "bname": "same-text"})
     # protocol-mode pairs: the party registry, the receive queue and the IO singleton belong to one spec object
     for i in range(14 if tier == "quick" else 120):
         same_names = i % 3 != 2
